@@ -14,6 +14,10 @@ mod vtxrec;
 mod audio;
 mod ay;
 mod determ;
+mod loaders;
+
+#[global_allocator]
+static ALLOC: loaders::Counting = loaders::Counting;
 
 fn main() {
     let mut it = std::env::args().skip(1);
@@ -52,6 +56,7 @@ fn main() {
         "audio" => audio::run(&args),
         "ay" => ay::run(&args),
         "determ" => determ::run(&args),
+        "loaders" => loaders::run(&args),
         "portsdbg" => ports::debug(),
         _ => {
             eprintln!("unknown sub-command {cmd:?}");
